@@ -70,4 +70,11 @@ theorem key_escape_full_false : ¬ KeyEscapeFull := by
   revert this
   decide +kernel
 
+/-- known finding `C11/title/SDF/title-starts-with-M-END` -/
+theorem title_full_false : ¬ TitleFull := by
+  intro h
+  have := h (sL "M  END of story") (by decide)
+  revert this
+  decide +kernel
+
 end ChythonModel.Findings.C11
